@@ -80,13 +80,24 @@ def handle : DrvHandler := fun op args =>
                         live := if pre.isSome then 1 else 0, spawns := 0, paused := none, killerDone := false,
                         exitAt := if exiting then some now else none, goneAt := none }
         let exitAfter ← jBool? (← jField? h "exitAfter")
-        let (s1, ds) := cycle c { matching, marked, paused, deleted, ex1, ex2 } s
+        let inp : CycIn := { matching, marked, paused, deleted, ex1, ex2 }
+        let (s1, ds) := cycle c inp s
+        -- did `match_daemons`' immediate re-visit fire for THIS handler? (the same unmarked cycle with the re-visit switched
+        -- off is shorter by its one `0`) — the code has ONE `if any(...): delays.append(0)` for all the visited daemons
+        let sel := matching && !forever
+        let reached := sel && !s.spawnBlocked c
+        let sa := spawnAct c.escorts s.run.isSome s.stopping
+        let s0 := if reached && sa.spawn then spawn s else s
+        let ds0 := if reached then (sa.delay.map (delayVal c 0)).toList else []
+        let dzFired := !marked && !deleted &&
+          (cycleCore c inp s0 ds0 (escorted c sel s) (fun _ => false)).2.length + 1 == ds.length
+        let ds := if dzFired then ds.erase 0 else ds
         -- the instance ended inside the cycle but after its own turn: the cycle label followed by `exit`
         let s' := if exitAfter then (match step c s1 .exit with | some s2 => s2 | none => s1) else s1
         pure (Json.mkObj [("id", .str id), ("spawned", .bool (s'.spawns == 1)),
                           ("run", match s'.run with | some i => instJson i | none => .null),
-                          ("forever", .bool s'.forever), ("known", .bool s'.known), ("live", .num (JsonNumber.fromNat s'.live))], ds))
-      let delays := sortInt (outs.foldl (fun acc o => acc ++ o.2) [])
+                          ("forever", .bool s'.forever), ("known", .bool s'.known), ("live", .num (JsonNumber.fromNat s'.live))], ds, dzFired))
+      let delays := sortInt (outs.foldl (fun acc o => acc ++ o.2.1) [] ++ (if outs.any (·.2.2) then [0] else []))
       some (ok (Json.mkObj [("handlers", .arr (outs.map (·.1)).toArray), ("delays", .arr (delays.map num).toArray)]))
   | "C09.kplan", [j] => do
       let c ← cfgOf? j
